@@ -305,7 +305,7 @@ func lruDriver(seed uint64, n int, outV, outJSON string, args []string) {
 		}
 	}
 	if gen {
-		WriteCases(outV, "Model.LRU Model.GoLRU Model.GoLRURun", "Z * Z * list op * list (out * snap)", "gcase_ok", cases)
+		WriteCases(outV, "Model.LRU Model.GoLRU Model.GoLRURun Bridge.Bridge_LRUSrc", "Z * Z * list op * list (out * snap)", "gcase_bounded_ok", cases)
 	} else {
 		WriteCases(outV, "Model.LRU", "Z * Z * list op * list (out * snap)", "case_ok", cases)
 	}
